@@ -142,6 +142,7 @@ def who_may_write(chk, F, G):
 def store_guards(chk, F):
     """(c): every store to previous_result has the four necessary guards and stores the reply's raw value."""
     table = {}
+    stored_kinds = {}
     for fn, bb, j, f, how in cg.field_writes(F, CTX, {"previous_result"}):
         if how != "assign":
             chk.finding("ans-store-guards", "%s::%s" % (fn.crate, fn.path), "non-assign:" + how, fn.where(bb, j),
@@ -175,10 +176,12 @@ def store_guards(chk, F):
                    "ans-store-guards", fk, "flag-on", where, "store only when save_previous_result is true",
                    "previous_result is stored without testing save_previous_result == true (guards: %s)" % gtxt)
         # 3. reply kind
-        chk.decide(has(lambda g: g[0] == "variant" and g[2].endswith("output::reply::QueryReply") and g[3] == "Number"
-                       and any(c.endswith("Context::eval_query") for c in ap_calls(g[1]))),
-                   "ans-store-guards", fk, "reply-is-number", where, "store only for QueryReply::Number",
-                   "previous_result is stored for replies other than QueryReply::Number (guards: %s)" % gtxt)
+        kinds = [g[3] for g in guards if g[0] == "variant" and g[2].endswith("output::reply::QueryReply")
+                 and any(c.endswith("Context::eval_query") for c in ap_calls(g[1]))]
+        chk.decide(bool(kinds) and all(k in ("Number", "Duration") for k in kinds),
+                   "ans-store-guards", fk, "reply-is-number", where, "store only for the numeric replies QueryReply::Number / ::Duration",
+                   "previous_result is stored for replies other than the numeric ones (guards: %s)" % gtxt)
+        stored_kinds.setdefault(fk, set()).update(kinds)
         # 4. raw value
         chk.decide(has(lambda g: g[0] == "variant" and g[1][1][-1:] == ("raw_value",) and g[3] == "Some"),
                    "ans-store-guards", fk, "raw-some", where, "store only when raw_value is Some",
@@ -197,6 +200,13 @@ def store_guards(chk, F):
                    "stores Some(clone of this reply's raw_value)", "stored value is %s, not the reply's raw_value" % txt[:200])
         table[fk] = sorted(set((g[0], g[1][1][-1:], str(g[2:]) if g[0] != "variant" else {"Ok": "success", "Continue": "success"}.get(g[3], g[3])) for g in guards))
     chk.floor("ans-store-guards", 15, "(three updaters x five obligations)")
+    # the numeric result of a plain expression is replied as Number, or - when it is a time - as Duration (the automatic
+    # breakdown): both are "the most recent numeric result" and every updater must store both
+    for fk, ks in sorted(stored_kinds.items()):
+        chk.decide(ks == {"Number", "Duration"}, "ans-store-guards", fk, "all-numeric-replies-stored", "",
+                   "the updater stores the raw value of both numeric reply kinds",
+                   "the updater stores ans only for %s: a plain expression whose value is a time is answered as QueryReply::Duration and never "
+                   "reaches `ans` (`2 m`, `10 s`, `ans` answers 2 meter)" % sorted(ks))
     # sibling agreement
     vals = list(table.values())
     if vals:
@@ -214,7 +224,7 @@ def number_sites(chk, F):
             continue
         for i, j, st in fn.stmts():
             rv = st.get("rv")
-            if not (rv and rv["k"] == "agg" and rv.get("adt", "").endswith("output::reply::QueryReply") and rv["variant"] == "Number"):
+            if not (rv and rv["k"] == "agg" and rv.get("adt", "").endswith("output::reply::QueryReply") and rv["variant"] in ("Number", "Duration")):
                 continue
             if "exp" in st["loc"] and "Derive" in st["loc"]["exp"]:
                 continue
@@ -226,9 +236,9 @@ def number_sites(chk, F):
                 (g[2].endswith("ast::query::Query") and g[3] not in ("Expr",)) or
                 (g[2].endswith("ast::query::Conversion") and g[3] != "None"))]
             val = any(g[0] == "variant" and g[2].endswith("runtime::value::Value") and g[3] == "Number" for g in guards)
-            chk.decide(in_eval_query and not badq and val, "number-reply-sites", fk, "ctor", fn.where(i, j),
-                       "QueryReply::Number built from eval_expr's Value::Number in the plain-expression arm",
-                       "QueryReply::Number is constructed %s (guards %s)" % (
+            chk.decide(in_eval_query and not badq and val, "number-reply-sites", fk, "ctor:" + rv["variant"], fn.where(i, j),
+                       "QueryReply::%s built from eval_expr's Value::Number in the plain-expression arm" % rv["variant"],
+                       "a numeric reply (stored as ans) is constructed %s (guards %s)" % (
                            "outside eval_query" if not in_eval_query else "in a conversion/command arm",
                            [(g[2].split("::")[-1], g[3]) for g in guards if g[0] == "variant"]))
     chk.floor("number-reply-sites", 1)
